@@ -430,4 +430,42 @@ theorem isValidLoop_spec (mem : List Nat) (hb : ∀ b ∈ mem, b < 256) :
               · simp only [h1, h2, h3, h4, h5, if_false]
     · rw [loop_end mem p len hp, drop_nil hp, wf_nil]
 
+/-! ### the decoders depend only on the range they are handed (hence the `String` overloads, which pass the
+      C-string view `s ++ [0]` with `len = s.length`, equal the pointer forms on the exact range) -/
+theorem rdR_append (mem ext : List Nat) (len k : Nat) (h : len ≤ mem.length) :
+    rdR (mem ++ ext) len k = rdR mem len k := by
+  unfold rdR
+  by_cases hk : k < len
+  · rw [if_pos hk, if_pos hk]
+    unfold rd
+    rw [List.getElem?_append_left (by omega)]
+  · rw [if_neg hk, if_neg hk]
+
+theorem fromString_append (mem ext : List Nat) (len : Nat) (h : len ≤ mem.length) :
+    fromString (mem ++ ext) len = fromString mem len := by
+  unfold fromString
+  simp only [rdR_append mem ext len _ h]
+
+theorem isValidLoop_append (mem ext : List Nat) (end_ : Nat) (h : end_ ≤ mem.length) :
+    ∀ (n p len : Nat), end_ - p ≤ n → isValidLoop (mem ++ ext) end_ p len = isValidLoop mem end_ p len := by
+  intro n
+  induction n with
+  | zero =>
+    intro p len hn
+    rw [isValidLoop, isValidLoop.eq_1 mem, dif_neg (by omega), dif_neg (by omega)]
+  | succ n ih =>
+    intro p len hn
+    rw [isValidLoop, isValidLoop.eq_1 mem]
+    by_cases hp : p < end_
+    · rw [dif_pos hp, dif_pos hp]
+      simp only [rdR_append mem ext end_ _ h]
+      rw [ih (p + 4) (len - 4) (by omega), ih (p + 3) (len - 3) (by omega), ih (p + 2) (len - 2) (by omega),
+        ih (p + 1) (len - 1) (by omega)]
+    · rw [dif_neg hp, dif_neg hp]
+
+theorem isValid_append (mem ext : List Nat) (len : Nat) (h : len ≤ mem.length) :
+    isValid (mem ++ ext) len = isValid mem len := by
+  unfold isValid
+  exact isValidLoop_append mem ext len h len 0 len (by omega)
+
 end Nstd.Codec
